@@ -165,6 +165,9 @@ func Execute(c *Case, chooser func(i int) sched.Chooser, record func(i int, mark
 			if spec.Ex.ParseSeed != 0 {
 				agg.Inc("fault.permuted_parse_order")
 			}
+			if spec.Ex.StallFile != "" {
+				agg.Inc("fault.stalled_read_armed")
+			}
 			res, err := runExec(c.World, l, spec, ch)
 			if r == 0 {
 				record(i, false)
@@ -179,6 +182,7 @@ func Execute(c *Case, chooser func(i int) sched.Chooser, record func(i int, mark
 			agg.Add("sched.switches", int64(res.st.Sched.Switches))
 			agg.Add("sched.preemptions", int64(res.st.Sched.Preemptions))
 			agg.Add("actions", int64(res.st.Actions))
+			agg.Add("fault.stalled_read_fired", int64(res.st.Stalls))
 			if res.st.Sched.Preemptions > 0 {
 				agg.Inc("executions_with_preemption")
 				agg.Distinct("nontrivial", res.hash^c.World.Hash())
@@ -327,6 +331,7 @@ func (e Engine) Run(t *core.Tape, opt core.RunOpt, agg *core.Agg) *core.Violatio
 func (e Engine) run(t *core.Tape, opt core.RunOpt, agg *core.Agg) (*Case, *failure, uint64, error) {
 	w, _ := world.Generate(t, world.GenOpt{MinPkgs: 2, MaxPkgs: 7, Flat: true, ReadFaults: true, LineDirectives: true, DirExclude: true, MultiModule: true, StdImports: true})
 	k, rep := params(opt)
+	slowDisk := t.Chance(1, 10) // per world: are there executions with a stalled read?
 	c := &Case{World: w}
 	c.Execs = append(c.Execs, ExecSpec{Label: "checker/sequential/all-roots", Ex: driver.Exec{Driver: "checker", Transport: "share", Roots: allRoots(w), Rerun: -1},
 		Sched: sched.Config{Strategy: sched.Sequential}, Repeat: rep})
@@ -355,6 +360,11 @@ func (e Engine) run(t *core.Tape, opt core.RunOpt, agg *core.Agg) (*Case, *failu
 		} else if t.Chance(1, 2) {
 			// the standalone driver parses all files concurrently: position bases vary from run to run
 			spec.Ex.ParseSeed = uint64(1 + t.Draw(1<<20))
+		}
+		if drv == "checker" && slowDisk && t.Chance(1, 3) {
+			// a slow disk: the first read of one source file takes 130 ms in this execution
+			p := &w.Pkgs[t.Draw(len(w.Pkgs))]
+			spec.Ex.StallFile = driver.FileName(w, p, p.Files[t.Draw(len(p.Files))])
 		}
 		if j == 0 {
 			spec.Repeat = rep // one preempting schedule is also repeated identically
